@@ -33,6 +33,7 @@ def pinnedCtx : Ctx := ⟨pinnedRule, Gen.attrs⟩
 def fixed1Ctx : Ctx := ⟨fixed1Rule, Gen.attrs⟩
 def fixed3Ctx : Ctx := ⟨fixed3Rule, Gen.attrs⟩
 def fixedCtx : Ctx := ⟨fixedRule, Gen.attrs⟩
+def fixed5Ctx : Ctx := ⟨fixed5Rule, Gen.attrs⟩
 def idealCtx : Ctx := ⟨idealRule, Gen.attrs⟩
 
 /-- no CALL statement of a PURE subroutine -/
@@ -77,108 +78,6 @@ def noIntrStmt : Stmt → Bool
   | .call _ _ _ _ => true
   | .icall _ _ _ => false
 
-/-- well-formedness of the CodeBlocks: the variables a CodeBlock may read / define are among
-the names occurring in its text -/
-def cbCovered : Stmt → Bool
-  | .skip => true
-  | .seq a b => cbCovered a && cbCovered b
-  | .asg _ _ => true
-  | .ifThen _ t => cbCovered t
-  | .ite _ t f => cbCovered t && cbCovered f
-  | .loop _ _ _ _ b => cbCovered b
-  | .while _ b => cbCovered b
-  | .ret => true
-  | .opaque _ names rd wr => (rd ++ wr).all (fun x => names.contains x)
-  | .call _ _ _ _ => true
-  | .icall _ _ _ => true
-
-/-- no CodeBlock whose text mentions a variable -/
-def cbOk : Stmt → Bool
-  | .skip => true
-  | .seq a b => cbOk a && cbOk b
-  | .asg _ _ => true
-  | .ifThen _ t => cbOk t
-  | .ite _ t f => cbOk t && cbOk f
-  | .loop _ _ _ _ b => cbOk b
-  | .while _ b => cbOk b
-  | .ret => true
-  | .opaque _ _ rd wr => rd.isEmpty && wr.isEmpty
-  | .call _ _ _ _ => true
-  | .icall _ _ _ => true
-
-/-- no inquiry intrinsic applied to a subscripted object -/
-def inqOk (tb : Nat → IAttr) : Stmt → Bool
-  | .skip => true
-  | .seq a b => inqOk tb a && inqOk tb b
-  | .asg l r => okE tb l && okE tb r
-  | .ifThen cnd t => okE tb cnd && inqOk tb t
-  | .ite cnd t f => okE tb cnd && inqOk tb t && inqOk tb f
-  | .loop _ lo hi st b => okE tb lo && okE tb hi && okE tb st && inqOk tb b
-  | .while cnd b => okE tb cnd && inqOk tb b
-  | .ret => true
-  | .opaque _ _ _ _ => true
-  | .call _ _ _ args => okE tb args
-  | .icall k _ args => (!(tb k).inquiry || firstPlain args) && okE tb args
-
-theorem okES_of_inqSubs (c : Ctx) (hs : c.rule.inqSubs = true) (hc : c.rule.cbRW = false) (s : Stmt)
-    (hcb : cbOk s = true) : okES c s = true := by
-  induction s with
-  | seq a b iha ihb =>
-    simp only [cbOk, Bool.and_eq_true] at hcb
-    simp [okES, iha hcb.1, ihb hcb.2]
-  | ifThen cnd t ih => simp only [cbOk] at hcb; simp [okES, okX, hs, ih hcb]
-  | ite cnd t f iht ihf =>
-    simp only [cbOk, Bool.and_eq_true] at hcb
-    simp [okES, okX, hs, iht hcb.1, ihf hcb.2]
-  | loop v lo hi st b ih => simp only [cbOk] at hcb; simp [okES, okX, hs, ih hcb]
-  | «while» cnd b ih => simp only [cbOk] at hcb; simp [okES, okX, hs, ih hcb]
-  | «opaque» f names rd wr => simpa [okES, cbOk, hc] using hcb
-  | _ => simp [okES, okX, hs]
-
-theorem okES_of_cbRW (c : Ctx) (hs : c.rule.inqSubs = true) (hc : c.rule.cbRW = true) (s : Stmt)
-    (hcb : cbCovered s = true) : okES c s = true := by
-  induction s with
-  | seq a b iha ihb =>
-    simp only [cbCovered, Bool.and_eq_true] at hcb
-    simp [okES, iha hcb.1, ihb hcb.2]
-  | ifThen cnd t ih => simp only [cbCovered] at hcb; simp [okES, okX, hs, ih hcb]
-  | ite cnd t f iht ihf =>
-    simp only [cbCovered, Bool.and_eq_true] at hcb
-    simp [okES, okX, hs, iht hcb.1, ihf hcb.2]
-  | loop v lo hi st b ih => simp only [cbCovered] at hcb; simp [okES, okX, hs, ih hcb]
-  | «while» cnd b ih => simp only [cbCovered] at hcb; simp [okES, okX, hs, ih hcb]
-  | «opaque» f names rd wr =>
-    simp only [cbCovered] at hcb
-    simp only [okES, hc, if_true]
-    exact hcb
-  | _ => simp [okES, okX, hs]
-
-theorem okES_of_inqOk (c : Ctx) (hc : c.rule.cbRW = false) (s : Stmt) (hcb : cbOk s = true)
-    (hi : inqOk c.attrs s = true) : okES c s = true := by
-  induction s with
-  | seq a b iha ihb =>
-    simp only [cbOk, inqOk, Bool.and_eq_true] at hcb hi
-    simp [okES, iha hcb.1 hi.1, ihb hcb.2 hi.2]
-  | asg l r => simp only [inqOk, Bool.and_eq_true] at hi; simp [okES, okX, hi.1, hi.2]
-  | ifThen cnd t ih =>
-    simp only [cbOk, inqOk, Bool.and_eq_true] at hcb hi
-    simp [okES, okX, hi.1, ih hcb hi.2]
-  | ite cnd t f iht ihf =>
-    simp only [cbOk, inqOk, Bool.and_eq_true] at hcb hi
-    simp [okES, okX, hi.1.1, iht hcb.1 hi.1.2, ihf hcb.2 hi.2]
-  | loop v lo hi' st b ih =>
-    simp only [cbOk, inqOk, Bool.and_eq_true] at hcb hi
-    simp [okES, okX, hi.1.1.1, hi.1.1.2, hi.1.2, ih hcb hi.2]
-  | «while» cnd b ih =>
-    simp only [cbOk, inqOk, Bool.and_eq_true] at hcb hi
-    simp [okES, okX, hi.1, ih hcb hi.2]
-  | «opaque» f names rd wr => simpa [okES, cbOk, hc] using hcb
-  | call p mods f args => simp only [inqOk] at hi; simp [okES, okX, hi]
-  | icall k f args =>
-    simp only [inqOk] at hi
-    simp only [okES, hi, Bool.or_true]
-  | _ => simp [okES]
-
 theorem okS_ideal (tb : Nat → IAttr) (s : Stmt) : okS ⟨idealRule, tb⟩ s = true := by
   induction s with
   | seq a b iha ihb => simp [okS, iha, ihb]
@@ -197,6 +96,16 @@ theorem okS_fixed (tb : Nat → IAttr) (s : Stmt) : okS ⟨fixedRule, tb⟩ s = 
   | loop v lo hi st b ih => simpa [okS, noPureUnresolved] using ih
   | «while» c b ih => simpa [okS, noPureUnresolved] using ih
   | call p mods f args => cases p <;> simp [okS, noPureUnresolved, fixedRule]
+  | _ => rfl
+
+theorem okS_fixed5 (tb : Nat → IAttr) (s : Stmt) : okS ⟨fixed5Rule, tb⟩ s = noPureUnresolved s := by
+  induction s with
+  | seq a b iha ihb => simp [okS, noPureUnresolved, iha, ihb]
+  | ifThen c t ih => simpa [okS, noPureUnresolved] using ih
+  | ite c t f iht ihf => simp [okS, noPureUnresolved, iht, ihf]
+  | loop v lo hi st b ih => simpa [okS, noPureUnresolved] using ih
+  | «while» c b ih => simpa [okS, noPureUnresolved] using ih
+  | call p mods f args => cases p <;> simp [okS, noPureUnresolved, fixed5Rule]
   | _ => rfl
 
 theorem okS_fixed3 (tb : Nat → IAttr) (s : Stmt) : okS ⟨fixed3Rule, tb⟩ s = noPureUnresolved s := by
@@ -271,6 +180,32 @@ theorem spine_elem_recorded (c : Ctx) (k : Kind) (args : Expr) :
       exact Or.inr ha
   | _ => intro mask n e he; simp [spineList] at he
 
+/-- a designator CodeBlock in an argument list: the designated variable is recorded READWRITE by
+a rule that records the names of CodeBlocks -/
+theorem spine_cb_recorded (c : Ctx) (hc : c.rule.cbRW = true) (ko : Option Kind) (args : Expr) :
+    ∀ (mask n : Nat) (f : Nat) (names rd : List Nat) (x : Nat), .cb f names rd (some x) ∈ spineList args →
+      x ∈ names → ∃ a ∈ (acc c args (.spine ko mask false) n).1, a.var = x ∧ a.kind = .readwrite := by
+  induction args with
+  | cons hd rest _ ihr =>
+    intro mask n f names rd x he hx
+    simp only [spineList, List.mem_cons] at he
+    rcases he with rfl | he
+    · refine ⟨⟨x, .readwrite, n, 0⟩, ?_, rfl, rfl⟩
+      simp only [acc, Bool.false_eq_true, if_false, List.mem_append]
+      left
+      have : (acc c (.cb f names rd (some x)) (elemMode (if mask % 2 = 1 then some Kind.readwrite else ko)) n).1
+          = cbAcc c names n := by
+        cases hem : elemMode (if mask % 2 = 1 then some Kind.readwrite else ko) <;> simp [acc]
+        exact (elemMode_ne_subs _ hem).elim
+      rw [this]
+      exact mem_cbAcc hc hx
+    · obtain ⟨a, ha, h1, h2⟩ := ihr (mask / 2)
+        (acc c hd (elemMode (if mask % 2 = 1 then some Kind.readwrite else ko)) n).2 f names rd x he hx
+      refine ⟨a, ?_, h1, h2⟩
+      simp only [acc, Bool.false_eq_true, if_false, List.mem_append]
+      exact Or.inr ha
+  | _ => intro mask n f names rd x he; simp [spineList] at he
+
 /-! ## The property -/
 
 /-- **C11 for one statement** in context `c`: whenever the access collection does not raise,
@@ -293,9 +228,11 @@ theorem C11_execT_agrees (ω : Oracle) (tb : Nat → IAttr) (s : MiniF.Stmt) (σ
 
 /-- Every element read is reported read — for every rule (pinned, fixed, ideal), all stores,
 callee behaviours, trip counts and DO WHILE iteration bounds, and every statement satisfying
-`okES`: no CodeBlock that mentions a variable and (only for rules that do not visit them) no
-inquiry intrinsic applied to a subscripted object.  Subscripts on every component of a
-structure access are included. -/
+`okES`: every CodeBlock (statement, or expression in an argument / condition / subscript /
+right-hand side / bound) is well-formed for the rule (its variables are among the names of its
+text if the rule records those, else it mentions none) and no inquiry intrinsic is applied to an
+object whose subscripts the rule does not visit.  Subscripts on every component of a structure
+access are included. -/
 theorem C11_reads (c : Ctx) (s : Stmt) (hq : okES c s = true) (A : List Access) (h : refAcc c s = some A)
     (ω : Oracle) (σ : Store) (l : Loc) (hev : Event.rd l ∈ (execT ω c.attrs s σ).2) :
     l.1 ∈ readVars A := by
@@ -320,26 +257,34 @@ theorem C11_writes (c : Ctx) (hfn : c.rule.callRW false false = true) (s : Stmt)
 
 /-- With the ideal call rule the property holds for every statement with well-formed
 CodeBlocks, with any intrinsic table. -/
-theorem C11_ideal (tb : Nat → IAttr) (s : Stmt) (hcb : cbCovered s = true) : C11_holds_for ⟨idealRule, tb⟩ s := by
+theorem C11_ideal (tb : Nat → IAttr) (s : Stmt) (hq : okES ⟨idealRule, tb⟩ s = true) :
+    C11_holds_for ⟨idealRule, tb⟩ s := by
   intro A h ω σ l
-  have hq := okES_of_cbRW ⟨idealRule, tb⟩ rfl rfl s hcb
   exact ⟨C11_reads _ s hq A h ω σ l, C11_writes _ rfl s (okS_ideal tb s) hq A h ω σ l⟩
 
-/-- **The code with the four C11 fixes**: the property holds for every statement (with
-well-formed CodeBlocks) that contains no CALL of a PURE subroutine defined outside the
-Container (the remaining known finding). -/
-theorem C11_fixed_partial (s : Stmt) (hs : noPureUnresolved s = true) (hcb : cbCovered s = true) :
+/-- **The code at HEAD (four C11 fixes)**: the property holds for every statement that contains no
+CALL of a PURE subroutine defined outside the Container (known finding) and satisfies
+`okES fixedCtx`: all CodeBlocks — statements and expressions, wherever they occur — are well-formed
+and no inquiry intrinsic is applied to a CodeBlock whose subscripts / sub-string bounds read a
+variable (`len(names(k)(1:n))`, known finding). -/
+theorem C11_fixed_partial (s : Stmt) (hs : noPureUnresolved s = true) (hq : okES fixedCtx s = true) :
     C11_holds_for fixedCtx s := by
   intro A h ω σ l
-  have hq := okES_of_cbRW fixedCtx rfl rfl s hcb
   exact ⟨C11_reads _ s hq A h ω σ l,
     C11_writes fixedCtx rfl s (by rw [fixedCtx, okS_fixed]; exact hs) hq A h ω σ l⟩
 
-/-- **Without the CodeBlock fix** (first three fixes): … and no CodeBlock mentions a variable. -/
-theorem C11_fixed3_partial (s : Stmt) (hs : noPureUnresolved s = true) (hcb : cbOk s = true) :
+/-- **With fixes/C11-inquiry-codeblock.patch in addition**: the inquiry restriction disappears
+(`okES fixed5Ctx` only asks for well-formed CodeBlocks). -/
+theorem C11_fixed5_partial (s : Stmt) (hs : noPureUnresolved s = true) (hq : okES fixed5Ctx s = true) :
+    C11_holds_for fixed5Ctx s := by
+  intro A h ω σ l
+  exact ⟨C11_reads _ s hq A h ω σ l,
+    C11_writes fixed5Ctx rfl s (by rw [fixed5Ctx, okS_fixed5]; exact hs) hq A h ω σ l⟩
+
+/-- **Without the CodeBlock fix** (first three fixes): `okES fixed3Ctx` — no CodeBlock mentions a variable. -/
+theorem C11_fixed3_partial (s : Stmt) (hs : noPureUnresolved s = true) (hq : okES fixed3Ctx s = true) :
     C11_holds_for fixed3Ctx s := by
   intro A h ω σ l
-  have hq := okES_of_inqSubs fixed3Ctx rfl rfl s hcb
   exact ⟨C11_reads _ s hq A h ω σ l,
     C11_writes fixed3Ctx rfl s (by rw [fixed3Ctx, okS_fixed3]; exact hs) hq A h ω σ l⟩
 
@@ -365,6 +310,36 @@ theorem C11_codeblock_counterexample (r : Rule) (hr : r.cbRW = false) :
   revert this
   decide
 
+/-- `call fill(names(k)(1:3))` (names = 0, k = 1): the actual argument is an expression CodeBlock
+designating `names`; the callee stores into it.  A rule that records nothing for CodeBlocks
+reports nothing at all. -/
+theorem C11_exprcb_counterexample (r : Rule) (hr : r.cbRW = false) :
+    ¬ C11_holds_for ⟨r, Gen.attrs⟩ (.call false none 0 (.cons (.cb 1 [0, 1] [0, 1] (some 0)) .nil)) := by
+  intro h
+  have := (h [] (by simp [refAcc, accS, acc, cbAcc, elemMode, hr, bumpIf])
+    ⟨fun _ _ => 0, fun _ _ _ => some 1, fun _ _ => 0, 0⟩ (MiniF.storeOf []) (0, 0, 0)).2
+    (by simp [execT, evalT, applyUpd])
+  revert this
+  decide
+
+/-- `n = len(names(k)(1:m))` (names = 0, k = 1, m = 2, n = 3): the length of the sub-string
+depends on `m`; a rule that does not visit a CodeBlock that is the inquired argument reports only
+`n: WRITE` (the code at HEAD; repaired by fixes/C11-inquiry-codeblock.patch). -/
+theorem C11_inquiry_codeblock_counterexample (r : Rule) (hr : r.inqCb = false) :
+    ¬ C11_holds_for ⟨r, Gen.attrs⟩
+      (.asg (.var 3) (.intr Gen.id_LEN (.cons (.cb 0 [0, 1, 2] [0, 1, 2] (some 0)) .nil))) := by
+  intro h
+  have hi : (Gen.attrs Gen.id_LEN).inquiry = true := by decide
+  have hA : refAcc ⟨r, Gen.attrs⟩
+      (.asg (.var 3) (.intr Gen.id_LEN (.cons (.cb 0 [0, 1, 2] [0, 1, 2] (some 0)) .nil)))
+      = some [⟨3, .write, 0, 0⟩] := by
+    cases hs : r.inqSubs <;>
+      simp [refAcc, accS, acc, hi, hr, hs, Expr.isRef, Expr.refVar, changeReadToWrite, project, bumpIf, shift]
+  have := (h _ hA ⟨fun _ _ => 0, fun _ _ _ => none, fun _ _ => 0, 0⟩ (MiniF.storeOf []) (2, 0, 0)).1
+    (by simp [execT, evalT, lhsT, hi, cbSubs])
+  revert this
+  decide
+
 /-- Hence the full statement fails for every such rule; for the code with all four fixes it
 fails on the PURE subroutine defined elsewhere. -/
 theorem C11_statement_fails (r : Rule) (hr : r.cbRW = false) : ¬ C11_statement ⟨r, Gen.attrs⟩ :=
@@ -376,18 +351,16 @@ theorem C11_statement_fails_fixed : ¬ C11_statement fixedCtx :=
 /-- **Without the inquiry and pure-subroutine fixes** (intrinsic-subroutine fix only): the
 property holds when additionally there is no PURE-subroutine call at all and no inquiry of a
 subscripted object. -/
-theorem C11_fixed1_partial (s : Stmt) (hs : noPureSub s = true) (hcb : cbOk s = true)
-    (hi : inqOk Gen.attrs s = true) : C11_holds_for fixed1Ctx s := by
+theorem C11_fixed1_partial (s : Stmt) (hs : noPureSub s = true) (hq : okES fixed1Ctx s = true) :
+    C11_holds_for fixed1Ctx s := by
   intro A h ω σ l
-  have hq := okES_of_inqOk fixed1Ctx rfl s hcb hi
   exact ⟨C11_reads _ s hq A h ω σ l,
     C11_writes fixed1Ctx rfl s (by rw [fixed1Ctx, okS_fixed1]; exact hs) hq A h ω σ l⟩
 
 /-- **The pinned code**: … and no intrinsic statement. -/
 theorem C11_pinned_partial (s : Stmt) (hs : noPureSub s = true) (hn : noIntrStmt s = true)
-    (hcb : cbOk s = true) (hi : inqOk Gen.attrs s = true) : C11_holds_for pinnedCtx s := by
+    (hq : okES pinnedCtx s = true) : C11_holds_for pinnedCtx s := by
   intro A h ω σ l
-  have hq := okES_of_inqOk pinnedCtx rfl s hcb hi
   exact ⟨C11_reads _ s hq A h ω σ l,
     C11_writes pinnedCtx rfl s (by rw [pinnedCtx, okS_pinned, hs, hn]; rfl) hq A h ω σ l⟩
 
@@ -445,6 +418,30 @@ theorem C11_call_args_written (c : Ctx) (p : Bool) (mods : Option Nat) (f : Nat)
   obtain ⟨a, ha, h1, h2⟩ := spine_elem_recorded c (kindOf true) args _ 0 e he href
   have hk : a.kind = .readwrite := by rcases h2 with h2 | h2 <;> exact h2
   exact ⟨mem_writtenVars.mpr ⟨a, ha, h1, by rw [hk]; rfl⟩, mem_readVars.mpr ⟨a, ha, h1, by rw [hk]; rfl⟩⟩
+
+/-- **Expression CodeBlocks as actual arguments**: a rule that records the names of CodeBlocks
+reports the designated variable of a designator CodeBlock (`names(k)(1:3)`) passed to ANY call
+statement — pure or not, whatever the declared intents — as written and read. -/
+theorem C11_exprcb_arg_written (c : Ctx) (hc : c.rule.cbRW = true) (p : Bool) (mods : Option Nat)
+    (f : Nat) (args : Expr) (A : List Access) (h : refAcc c (.call p mods f args) = some A)
+    (g : Nat) (names rd : List Nat) (x : Nat) (he : .cb g names rd (some x) ∈ spineList args)
+    (hx : x ∈ names) : x ∈ writtenVars A ∧ x ∈ readVars A := by
+  simp only [refAcc, accS, bumpIf, Bool.false_eq_true, if_false, Option.map_some,
+    Option.some.injEq] at h
+  subst h
+  obtain ⟨a, ha, h1, hk⟩ := spine_cb_recorded c hc _ args _ 0 g names rd x he hx
+  exact ⟨mem_writtenVars.mpr ⟨a, ha, h1, by rw [hk]; rfl⟩, mem_readVars.mpr ⟨a, ha, h1, by rw [hk]; rfl⟩⟩
+
+/-- … the same for an intrinsic subroutine (`call date_and_time(date=stamp(k)(1:8))`). -/
+theorem C11_exprcb_intrinsic_arg_written (c : Ctx) (hc : c.rule.cbRW = true) (k f : Nat) (args : Expr)
+    (hinq : (c.attrs k).inquiry = false) (A : List Access) (h : refAcc c (.icall k f args) = some A)
+    (g : Nat) (names rd : List Nat) (x : Nat) (he : .cb g names rd (some x) ∈ spineList args)
+    (hx : x ∈ names) : x ∈ writtenVars A := by
+  simp only [refAcc, accS, bumpIf, Bool.false_eq_true, if_false, Option.map_some,
+    Option.some.injEq, hinq] at h
+  subst h
+  obtain ⟨a, ha, h1, hk⟩ := spine_cb_recorded c hc _ args _ 0 g names rd x he hx
+  exact mem_writtenVars.mpr ⟨a, ha, h1, by rw [hk]; rfl⟩
 
 /-- … and dynamically: every store a callee makes through an argument is reported — also for
 a PURE subroutine defined in the same Container, when the rule uses its declared intents. -/
@@ -633,19 +630,47 @@ example : noPureUnresolved (.seq (.call true (some 1) 0 (.cons (.var 0) .nil))
 /-- `write(*,*) a(i), n; read(*,*) j` (a = 0, i = 1, n = 2, j = 3) with the CodeBlock fix -/
 example : refAcc fixedCtx (.opaque 0 [0, 1, 2, 3] [0, 1, 2] [3])
     = some [⟨0, .readwrite, 0, 0⟩, ⟨1, .readwrite, 0, 0⟩, ⟨2, .readwrite, 0, 0⟩, ⟨3, .readwrite, 0, 0⟩] := by decide
-example : cbCovered (.opaque 0 [0, 1, 2, 3] [0, 1, 2] [3]) = true := by decide
-example : cbOk (.seq (.call true (some 1) 0 (.cons (.var 0) .nil))
+example : okES fixedCtx (.opaque 0 [0, 1, 2, 3] [0, 1, 2] [3]) = true := by decide
+example : okES fixed3Ctx (.seq (.call true (some 1) 0 (.cons (.var 0) .nil))
     (.loop 1 (.lit 1) (.var 0) (.lit 1) (.seq (.icall Gen.id_RANDOM_NUMBER 1 (.cons (.idx1 2 (.var 1)) .nil))
       (.ifThen (.var 3) (.seq (.opaque 2 [] [] []) .ret))))) = true := by decide
 example : (refAcc fixedCtx (.seq (.call true (some 1) 0 (.cons (.var 0) .nil))
     (.loop 1 (.lit 1) (.var 0) (.lit 1) (.seq (.icall Gen.id_RANDOM_NUMBER 1 (.cons (.idx1 2 (.var 1)) .nil))
       (.ifThen (.var 3) (.seq (.opaque 2 [] [] []) .ret)))))).isSome = true := by decide
-example : inqOk Gen.attrs (.seq (.call false none 0 (.cons (.idxs 0 3 (.cons (.var 1) (.cons (.var 2) (.cons (.var 3) .nil)))) .nil))
+example : okES pinnedCtx (.seq (.call false none 0 (.cons (.idxs 0 3 (.cons (.var 1) (.cons (.var 2) (.cons (.var 3) .nil)))) .nil))
     (.asg (.var 4) (.intr Gen.id_SIZE (.cons (.var 5) (.cons (.var 1) .nil))))) = true := by decide
 /-- `call update(g(i)%b(j)%x(k))`: the subscripts of ALL components are reported READ -/
 example : refAcc fixedCtx (.call false none 0 (.cons (.idxs 0 3 (.cons (.var 1) (.cons (.var 2) (.cons (.var 3) .nil)))) .nil))
     = some [⟨0, .readwrite, 0, 0⟩, ⟨1, .read, 0, 0⟩, ⟨2, .read, 0, 0⟩, ⟨3, .read, 0, 0⟩] := by decide
 example : noIntrStmt (.ite (.var 0) (.call false none 0 (.cons (.var 1) .nil)) .skip) = true := by decide
+
+/-- `call fill(names(k)(1:3))` (names = 0, k = 1) at HEAD: every name of the CodeBlock READWRITE -/
+example : refAcc fixedCtx (.call false none 0 (.cons (.cb 1 [0, 1] [0, 1] (some 0)) .nil))
+    = some [⟨0, .readwrite, 0, 0⟩, ⟨1, .readwrite, 0, 0⟩] := by decide
+/-- `if (names(k)(1:1) == c) a(ichar(names(k)(i:i))) = s + ichar(names(k)(2:2))`
+(names = 0, k = 1, c = 2, a = 3, i = 4, s = 5): CodeBlocks in a condition, a subscript and the RHS -/
+example : refAcc fixedCtx (.ifThen (.bin .eq (.cb 0 [0, 1] [0, 1] (some 0)) (.var 2))
+      (.asg (.idx1 3 (.intr Gen.id_ICHAR (.cons (.cb 1 [0, 1, 4, 4] [0, 1, 4] (some 0)) .nil)))
+        (.bin .add (.var 5) (.intr Gen.id_ICHAR (.cons (.cb 2 [0, 1] [0, 1] (some 0)) .nil)))))
+    = some [⟨0, .readwrite, 0, 0⟩, ⟨1, .readwrite, 0, 0⟩, ⟨2, .read, 0, 0⟩,
+            ⟨5, .read, 1, 0⟩, ⟨0, .readwrite, 1, 0⟩, ⟨1, .readwrite, 1, 0⟩,
+            ⟨0, .readwrite, 1, 0⟩, ⟨1, .readwrite, 1, 0⟩, ⟨4, .readwrite, 1, 0⟩, ⟨4, .readwrite, 1, 0⟩,
+            ⟨3, .write, 1, 1⟩] := by decide
+example : okES fixedCtx (.ifThen (.bin .eq (.cb 0 [0, 1] [0, 1] (some 0)) (.var 2))
+      (.asg (.idx1 3 (.intr Gen.id_ICHAR (.cons (.cb 1 [0, 1, 4, 4] [0, 1, 4] (some 0)) .nil)))
+        (.bin .add (.var 5) (.intr Gen.id_ICHAR (.cons (.cb 2 [0, 1] [0, 1] (some 0)) .nil))))) = true := by decide
+example : okES fixedCtx (.seq (.call false none 0 (.cons (.cb 1 [0, 1] [0, 1] (some 0)) .nil))
+    (.icall Gen.id_DATE_AND_TIME 2 (.cons (.cb 3 [4, 1] [4, 1] (some 4)) .nil))) = true := by decide
+/-- the inquiry of a CodeBlock with sub-string bounds is excluded at HEAD, admitted with the fifth fix -/
+example : okES fixedCtx (.asg (.var 3) (.intr Gen.id_LEN (.cons (.cb 0 [0, 1, 2] [0, 1, 2] (some 0)) .nil))) = false := by decide
+example : okES fixed5Ctx (.asg (.var 3) (.intr Gen.id_LEN (.cons (.cb 0 [0, 1, 2] [0, 1, 2] (some 0)) .nil))) = true := by decide
+example : refAcc fixed5Ctx (.asg (.var 3) (.intr Gen.id_LEN (.cons (.cb 0 [0, 1, 2] [0, 1, 2] (some 0)) .nil)))
+    = some [⟨0, .readwrite, 0, 0⟩, ⟨1, .readwrite, 0, 0⟩, ⟨2, .readwrite, 0, 0⟩, ⟨3, .write, 0, 0⟩] := by decide
+/-- a dynamic trace: `call fill(names(k)(1:3))` reads `names`, `k` and the callee stores into `names` -/
+example : (execT ⟨fun _ _ => 0, fun _ _ _ => some 7, fun _ _ => 0, 0⟩ Gen.attrs
+      (.call false none 0 (.cons (.cb 1 [0, 1] [0, 1] (some 0)) .nil)) (MiniF.storeOf [])).2
+    = [.rd (0, 0, 0), .rd (1, 0, 0), .wr (0, 0, 0)] := by
+  simp [execT, evalT, applyUpd]
 
 /-- the live table: SIZE/LBOUND are inquiries, ALLOCATE / RANDOM_NUMBER are not pure -/
 example : (Gen.attrs Gen.id_SIZE).inquiry = true ∧ (Gen.attrs Gen.id_LBOUND).inquiry = true ∧
